@@ -311,7 +311,9 @@ CLAIM = {
     "text": "Table agreement over all scalar and aggregate registry rows between three places the compiler does not relate: signature "
             "ids (HIR const tables), bind()'s return_type (MIR provenance in the instantiated bind body) and the executor's storage type "
             "parameters (monomorphic call sites from the instantiation walk). Decides schema/array type agreement per row for all inputs; "
-            "dynamically computed types and UNION unification are not decided.",
+            "dynamically computed types are not decided. Plus a guard rule: every conditional cast insertion in binder/planner (UNION branches, "
+            "INSERT/VALUES, CASE, subquery and decimal comparisons) is controlled by inequality of the full DataType, so a branch cannot keep "
+            "a type that differs from the announced one in precision/scale/unit.",
     "note": "trusted: rustc HIR/MIR; id→physical and storage→physical maps are extracted from DataType::physical_type and "
             "ScalarStorage::PHYSICAL_TYPE in the code itself",
     "technique": "static analysis: const-table / MIR three-way agreement via registry instantiation walk (rustc_private driver)",
